@@ -546,7 +546,7 @@ class Check:
                 i = mism[0]
                 broken.append(("correspondence",
                                f"{len(mism)} of {len(cases)} cases differ; first: "
-                               f"{json.dumps(self.describe(cases[i]))[:600]} impl={jsonable(observed[i])!r}"[:1500]))
+                               f"{json.dumps(self.describe(cases[i]), default=repr)[:600]} impl={jsonable(observed[i])!r}"[:1500]))
         extra_ties = []
         for name, eok, detail in self.extra_checks():
             extra_ties.append({"tie": name, "ok": bool(eok), "detail": str(detail)[:400]})
